@@ -41,10 +41,23 @@ func init() {
 
 var restrict = wprog.Restrict{NoEncrypt: true, NoObjStm: true, SafeText: true, MaxOps: 6, MaxBody: 1400, SmallValues: true, NoWriterGet: true}
 
+// restrictLong: few operations, long stream bodies (several scanner windows);
+// the crash points of such a document are enumerated around the object
+// boundaries and on a coarse grid in between, not byte by byte.
+var restrictLong = wprog.Restrict{NoEncrypt: true, NoObjStm: true, SafeText: true, MaxOps: 3, MaxBody: 4200, SmallValues: true, NoWriterGet: true}
+
 func Run(e *core.Env) {
-	cfg := wprog.DrawConfig(e.T, &restrict)
+	r := &restrict
+	if e.T.Bool("long", 1, 5) {
+		r = &restrictLong
+		sparse = true
+		e.Probe("document with long streams (crash points around object boundaries)")
+	} else {
+		sparse = false
+	}
+	cfg := wprog.DrawConfig(e.T, r)
 	disk := simdisk.NewDisk()
-	res := wprog.Execute(e.T, cfg, &restrict, disk.Sink(cfg.Sink))
+	res := wprog.Execute(e.T, cfg, r, disk.Sink(cfg.Sink))
 	e.Note("config", cfg.String())
 	e.Note("ops", res.OpNames)
 	if res.Err != nil {
@@ -55,6 +68,10 @@ func Run(e *core.Env) {
 	e.Sig(res.Shape(), len(disk.Data), eofAtEnd)
 	Enumerate(e, res, disk.Data, eofAtEnd)
 }
+
+// sparse selects the coarse enumeration for the current run (worker processes
+// run one case at a time).
+var sparse bool
 
 type extent struct {
 	ref        strictpdf.Ref
@@ -187,8 +204,20 @@ func Enumerate(e *core.Env, res *wprog.Result, image []byte, eofAtEnd bool) {
 		return true
 	}
 
-	// every crash point
+	// every crash point (long documents: every offset within 100 bytes after
+	// and 4 bytes before an object's end, every 61st offset otherwise)
+	near := func(n int) bool {
+		for _, x := range exts {
+			if int64(n) >= x.end-4 && int64(n) <= x.end+100 {
+				return true
+			}
+		}
+		return false
+	}
 	for n := 0; n <= len(image); n++ {
+		if sparse && len(image) > 3000 && n%61 != 0 && n != len(image) && !near(n) {
+			continue
+		}
 		k := sort.Search(len(exts), func(i int) bool { return exts[i].end > int64(n) })
 		// exts sorted by start; ends are increasing as well (objects do not overlap)
 		if !check(image[:n], fmt.Sprintf("truncated at %d of %d", n, len(image)), exts[:k]) {
